@@ -1,7 +1,227 @@
-from ..model import AnalysisError
+"""C14 - fleet delivers whole batches after a full round trip (partial).
+
+  R1 the capacity trigger `activate_fleet.succeed()` exists in put, is control dependent on Σ_H|L| = capacity (or >=)
+     and on `not triggered`, and fires whenever that condition holds;
+  R2 the activation process waits on any_of([timeout(self.delay), self.activate_fleet]) and departs only if
+     `items` is non-empty;
+  R3 exactly two `yield timeout(self.transit_delay)` dominate the batch move;
+  R4 the batch handed to the move process does not alias a list that the move loop or put() mutates during the trip;
+  R5 (advisory) the consumed one-shot event is re-armed on every path back to the wait.
+"""
+from __future__ import annotations
+
+import ast
+
+from .. import lin, paths, storewalk, tables
+from ..model import AnalysisError, Project, self_attr, walk_no_nested
+from ..report import Result
+from .common import events_atoms, site, src, sum_lin
+
 PROP = 'C14'
 LEVEL = 'other'
 
 
-def run(p, tier):
-    raise AnalysisError('rule module for C14 not implemented yet (fail closed)')
+def run(p: Project, tier: str) -> Result:
+    r = Result(PROP)
+    r.explanation = ('Structure of the departure mechanism: capacity trigger predicate, wait-set of the activation process, two transit '
+                     'timeouts before the batch becomes available, and an alias check of the batch iterable. Batch boundaries and the upper '
+                     'bound on waiting depend on the schedule and are not decided.')
+    r.rule('C14.R1', 'capacity trigger: succeed() ⇔ Σ held = capacity ∧ not already triggered', 1)
+    r.rule('C14.R2', 'activation waits on any_of([timeout(delay), activate_fleet]); departs only with items waiting', 2)
+    r.rule('C14.R3', 'two timeouts of transit_delay dominate the batch move', 1)
+    r.rule('C14.R4', 'the batch iterable is a snapshot, not the live list mutated during the trip', 1)
+    r.not_decided = ['batch boundaries in time, the bound "one delay period plus one round trip" (schedule dependent)',
+                     'items loaded during a trip (needs a waiting/in-transit separation the store does not have)']
+    w = None
+    for x in storewalk.walks(p, assume_inv=('I1',)):
+        if x.store.ci.name == 'FleetStore':
+            w = x
+    if w is None:
+        raise AnalysisError('anchor vanished: FleetStore')
+    r.paths += w.npaths
+    s = w.store
+    check_trigger(w, r)
+    check_activation(w, r)
+    check_transit(w, r)
+    return r
+
+
+def check_trigger(w, r):
+    s = w.store
+    fi = s.methods['_do_put']
+    r.analysed_functions.add(fi.key)
+    key = f'{s.ci.label}._do_put::capacity-trigger'
+    H = list(s.holders)
+    n_succ = 0
+    bad = None
+    for pa in w.roots['put']:
+        if pa.raises:
+            continue
+        evs = pa.events
+        succ = [i for i, e in enumerate(evs) if e.kind == 'succeed' and e.target == 'self.activate_fleet']
+        app = [i for i, e in enumerate(evs) if e.kind == 'op' and e.list in H and e.op in ('append', 'insert')]
+        if not app:
+            continue
+        # the test `Σ == cap` as decided on this path (after the append)
+        full_atoms_true = None
+        for i in succ:
+            n_succ += 1
+            e = evs[i]
+            atoms = events_atoms(evs[:i])
+            full = lin.ladd(sum_lin(H, e.g, e.dl), {'cap': -1})
+            ge = ('<=', lin.norm(lin.lneg(full)))          # Σ − cap >= 0
+            if not lin.implies(atoms, ge):
+                bad = (pa, 'the fleet is activated although the number of held items has not reached the capacity')
+            if i < app[0]:
+                bad = bad or (pa, 'the capacity test runs before the item is stored (off by one)')
+        if not succ:
+            # a path that stores the item, on which Σ = cap is *possible* and the event is not triggered, must have succeeded
+            atoms = events_atoms(evs)
+            st = pa.st
+            # lengths after the append at the end of _do_put: use the last op snapshot
+            last = evs[app[-1]]
+            full = lin.ladd(sum_lin(H, last.g, last.dl), {'cap': -1})
+            eq = [('==', lin.norm(full))]
+            not_trig = any(e.kind == 'cond' and not e.d.get('synthetic') and e.text == 'self.activate_fleet.triggered' and e.polarity is True for e in evs)
+            if not lin.unsat(atoms + eq) and not not_trig:
+                bad = bad or (pa, 'a put that fills the fleet to capacity does not trigger the departure (the batch waits for the timeout instead)')
+    if n_succ == 0:
+        r.fail('C14.R1', key, 'put() never triggers activate_fleet: a full fleet does not depart until the waiting delay expires',
+               src(fi.module), fi.node.lineno)
+    elif bad:
+        r.fail('C14.R1', key, bad[1], src(fi.module), fi.node.lineno, bad[0].describe())
+    else:
+        r.ok('C14.R1', key, 'succeed() exactly when Σ held reaches capacity and the event is untriggered', src(fi.module), fi.node.lineno)
+
+
+def check_activation(w, r):
+    s = w.store
+    name = 'fleet_activation_process'
+    if name not in w.roots:
+        r.fail('C14.R2', f'{s.ci.label}::activation-process', 'no activation process is spawned by the store', src(s.ci.module), s.ci.node.lineno)
+        return
+    fi = w.root_funcs[name]
+    r.analysed_functions.add(fi.key)
+    # spawned from __init__
+    init = s.methods.get('__init__')
+    key0 = f'{s.ci.label}.__init__::starts-activation-process'
+    started = init is not None and any(isinstance(n, ast.Call) and ast.unparse(n).replace(' ', '') == 'self.env.process(self.fleet_activation_process())'
+                                       for n in walk_no_nested(init.node))
+    (r.ok if started else r.fail)('C14.R2', key0, 'started once by the constructor' if started else 'the constructor does not start the activation process',
+                                  src(fi.module), fi.node.lineno)
+    key = f'{fi.key}::wait-set-and-departure'
+    bad = None
+    n = 0
+    alias = None
+    rearm_bad = None
+    for pa in w.roots[name]:
+        if pa.raises:
+            continue
+        evs = pa.events
+        ys = [e for e in evs if e.kind == 'yield']
+        if not ys:
+            bad = (pa, 'the activation loop has an iteration without a wait (zero-time loop)')
+            continue
+        n += 1
+        y = ys[0]
+        # any_of over a list made of timeout(self.delay) and self.activate_fleet
+        okwait = False
+        for x in evs:
+            if x.kind == 'xcall' and x.d.get('result') == y.value and x.name.endswith('any_of') and x.args:
+                lst = x.args[0]
+                mk = [m for m in evs if m.kind == 'mklist' and m.value == lst]
+                elems = mk[0].elems if mk else (lst[1] if lst and lst[0] == 'list' else ())
+                touts = []
+                for el in elems:
+                    for c in evs:
+                        if c.kind == 'xcall' and c.d.get('result') == el and c.name.endswith('.timeout'):
+                            touts.append(c.args[0] if c.args else None)
+                has_ev = any(el == ('self', 'activate_fleet') or (isinstance(el, tuple) and el[0] == 'newevent') for el in elems) or \
+                    any(el == ('self', 'activate_fleet') for el in elems)
+                okwait = touts == [('self', 'delay')] and has_ev and len(elems) == 2
+        if not okwait:
+            bad = (pa, 'the activation process does not wait on any_of([timeout(self.delay), self.activate_fleet])')
+        sp = [i for i, e in enumerate(evs) if e.kind == 'spawn' and e.func == 'self.move_to_ready_items']
+        for i in sp:
+            guard = any(c.kind == 'cond' and not c.d.get('synthetic') and c.text == 'self.items' and c.polarity is True for c in evs[:i])
+            if not guard:
+                bad = bad or (pa, 'the fleet departs without checking that items are waiting')
+            a0 = evs[i].args[0] if evs[i].args else None
+            if a0 is not None and a0[0] == 'self' and a0[1] in s.holders:
+                alias = (evs[i], pa, a0[1])
+        if len(sp) > 1:
+            bad = bad or (pa, 'several departures in one activation')
+        # R5 advisory: triggered event re-armed
+        trig = [c for c in evs if c.kind == 'cond' and not c.d.get('synthetic') and c.text == 'self.activate_fleet.triggered']
+        rearm = any(e.kind == 'setattr' and e.target == 'self.activate_fleet' and e.value[0] == 'newevent' for e in evs)
+        if not trig and not rearm:
+            rearm_bad = pa
+    if n == 0:
+        bad = bad or (w.roots[name][0], 'no complete activation iteration')
+    (r.ok if not bad else r.fail)('C14.R2', key, 'waits on timeout(delay) ∨ capacity event; departs only with items waiting' if not bad else bad[1],
+                                  src(fi.module), fi.node.lineno, *([bad[0].describe()] if bad else []))
+    key4 = f'{fi.key}::batch-is-a-snapshot'
+    if alias:
+        e, pa, L = alias
+        mutated = move_loop_mutates(w, L)
+        if mutated:
+            r.fail('C14.R4', key4, f'the batch handed to move_to_ready_items is the live list `self.{L}`, and the move loop removes elements from `self.{L}` '
+                                   f'while iterating it: every other item is skipped (A,B,C,D → only A,C are delivered); items put during the trip join the batch',
+                   src(fi.module), e.line, pa.describe())
+        else:
+            r.ok('C14.R4', key4, f'self.{L} is passed but not mutated by the move loop', src(fi.module), e.line)
+    else:
+        r.ok('C14.R4', key4, 'the batch is a snapshot of the waiting items', src(fi.module), fi.node.lineno)
+    if rearm_bad is not None:
+        r.advisories.append(f'C14.R5 {fi.key}: a path returns to the wait without re-arming a possibly consumed activate_fleet event (no witness; advisory)')
+
+
+def move_loop_mutates(w, L):
+    fi = w.store.methods.get('move_to_ready_items')
+    if fi is None:
+        return False
+    par = [a.arg for a in fi.node.args.args if a.arg != 'self']
+    for n in walk_no_nested(fi.node):
+        if isinstance(n, ast.For) and isinstance(n.iter, ast.Name) and par and n.iter.id == par[0]:
+            for x in ast.walk(n):
+                if isinstance(x, ast.Call) and isinstance(x.func, ast.Attribute) and x.func.attr in ('pop', 'remove', 'insert', 'append', 'clear') \
+                        and self_attr(x.func.value) == L:
+                    return True
+    return False
+
+
+def check_transit(w, r):
+    s = w.store
+    fi = s.methods.get('move_to_ready_items')
+    key = f'{s.ci.label}.move_to_ready_items::round-trip'
+    if fi is None or 'move_to_ready_items' not in w.roots:
+        r.fail('C14.R3', key, 'move_to_ready_items missing', src(s.ci.module), s.ci.node.lineno)
+        return
+    r.analysed_functions.add(fi.key)
+    bad = None
+    n = 0
+    for pa in w.roots['move_to_ready_items']:
+        if pa.raises:
+            continue
+        evs = pa.events
+        first_op = next((i for i, e in enumerate(evs) if e.kind == 'op' and e.list in s.holders), None)
+        if first_op is None:
+            continue
+        n += 1
+        touts = []
+        for y in evs[:first_op]:
+            if y.kind == 'yield':
+                arg = None
+                for x in evs:
+                    if x.kind == 'xcall' and x.d.get('result') == y.value and x.name.endswith('.timeout'):
+                        arg = x.args[0] if x.args else None
+                touts.append((y.cls, arg))
+        if touts != [('timeout', ('self', 'transit_delay')), ('timeout', ('self', 'transit_delay'))]:
+            bad = (pa, f'the batch becomes available after the waits {touts}; expected exactly two timeouts of self.transit_delay (out and back)')
+        later = [y for y in evs[first_op:] if y.kind == 'yield']
+        if later:
+            bad = bad or (pa, 'the batch is not delivered together: the move loop suspends between items')
+    if n == 0:
+        bad = (w.roots['move_to_ready_items'][0], 'no path moves a batch')
+    (r.ok if not bad else r.fail)('C14.R3', key, 'two transit timeouts, then the whole batch in one atomic segment' if not bad else bad[1],
+                                  src(fi.module), fi.node.lineno, *([bad[0].describe()] if bad else []))
